@@ -77,7 +77,8 @@ def generate(tier, rng, mode):
         elif tier == 'quick':
             depth = 3 if N <= 5 else 2
         else:
-            depth = min(N + 1, 5) if N <= 4 else (4 if N <= 6 else 3)
+            # depth 2 already reaches every (front, back) cursor pair (nth(i) then nth_back(j)); 3-4 adds the frozen states
+            depth = min(N + 1, 4) if N <= 3 else 3
         e.extra['depth'] = depth
         alpha = alphabet(N)
         suffix = ['len:0', 'next:0', 'back:0', 'len:0']
